@@ -179,9 +179,33 @@ func histValidators(seed uint64, steps int, mode replicaMode) ([]string, int) {
 				t.Add("OVERDUE PLAN registered for %d err=%v", cur-1-k, err)
 			}
 			sensitive++
-		case x < 70:
+		case x < 68:
 			mx := uint32(5 + rng.Intn(30))
-			w.setParams(func(p *opchildtypes.Params) { p.MaxValidators = mx; p.HistoricalEntries = uint32(rng.Intn(4)) }, "params")
+			he := mon.Pick(rng, []uint32{0, 1, 2, 3, 9, 14}) // retention grows and shrinks by more than one
+			w.setParams(func(p *opchildtypes.Params) { p.MaxValidators = mx; p.HistoricalEntries = he }, "params")
+		case x < 72:
+			// the admin's batch: several authority-signed messages that do not commute, executed in the listed order
+			p, _ := l2.K.GetParams(l2.Ctx)
+			p.MaxValidators = uint32(5 + rng.Intn(30))
+			nk := NewValKey(300 + s%90)
+			add, _ := opchildtypes.NewMsgAddValidator("batch", l2.Authority, nk.Operator.Val(), nk.Pub)
+			inner := []sdk.Msg{opchildtypes.NewMsgUpdateParams(l2.Authority, &p), add}
+			for j := range bonded {
+				_ = j
+			}
+			for j := 1; j <= 20; j++ {
+				if bonded[j] {
+					rm, _ := opchildtypes.NewMsgRemoveValidator(l2.Authority, NewValKey(j).Operator.Val())
+					inner = append(inner, rm)
+					delete(bonded, j)
+					break
+				}
+			}
+			inner = append(inner, opchildtypes.NewMsgSpendFeePool(sdk.MustAccAddressFromBech32(l2.Authority), w.e.Users[0].Addr, sdk.NewCoins()))
+			if m, err := opchildtypes.NewMsgExecuteMessages(w.e.Admin.String(), inner); err == nil {
+				l2.Deliver(m)
+				sensitive++
+			}
 		case x < 80:
 			seq := w.e.NextL1Seq()
 			to := mon.Pick(rng, w.e.Users).String()
